@@ -341,7 +341,8 @@ def plan_c01(prop, tier, seed, t0):
     # gone, a publish whose caller went away) must not lose anything either
     return core_check(prop, tier, seed, t0, over, explore=[("mixed", 48, 1500), ("data", 24, 1500), ("consumers", 24, 1500)], caps=(16, 1, 2),
                       extra_scenarios=lambda quick, sd: extra(quick, sd)
-                      + cancel_scenarios(sd, kinds={"Pull", "Ack", "ModAck", "ModAck30", "Publish", "PublishBig"}, quick=quick),
+                      + cancel_scenarios(sd, kinds={"Pull", "Ack", "ModAck", "ModAck30", "Publish", "PublishBig"}, quick=quick)
+                      + refused_next_to_live_scenarios(sd, quick),
                       thorough={"mc": dict(MaxOps=7, MaxMsgs=3)}, turns=True)
 
 
@@ -379,6 +380,47 @@ def big_batch_scenarios(seed, quick):
                 steps.append({"do": "sabandon", "h": "s"})
             steps.append({"do": "drain", "c": 9})
             out.append(scn("bigbatch-%s-%d" % (kind, n), steps, seed=seed + i))
+    return out
+
+
+def refused_next_to_live_scenarios(seed, quick):
+    """Requests that are REFUSED (duplicate creates with other settings, creates on a missing or
+    foreign topic, deletes / publishes / acks addressed to absent names, malformed ack ids) while a
+    topic with two subscriptions is live and holds queued and outstanding messages: the live
+    resources keep their configuration, their backlog and their deadlines."""
+    out = []
+    TP = "projects/p2/topics/t3"
+    for k in range(3 if quick else 9):
+        refused = [call(3, op="CreateTopic", name=T1),
+                   call(3, op="CreateSub", name=S1, topic=T1, ack=60),
+                   call(3, op="CreateSub", name=S1, topic=T2, ack=10),
+                   call(3, op="CreateSub", name=S1, topic=TP, ack=10),
+                   call(3, op="CreateSub", name=S2, topic="projects/p1/topics/none", ack=10),
+                   call(3, op="DeleteTopic", name="projects/p1/topics/none"),
+                   call(3, op="DeleteSub", name="projects/p1/subscriptions/none"),
+                   call(3, op="Publish", topic="projects/p1/topics/none", msgs=[{"p": "lost"}]),
+                   call(3, op="Ack", sub=S1, acks=[{"lit": "abc"}, {"d": 1}]),
+                   call(3, op="ModAck", sub=S1, acks=[{"d": 1}], secs=-1),
+                   call(3, op="Pull", sub="projects/p1/subscriptions/none", max=1, ri=True),
+                   call(3, op="GetTopic", name="projects/p1/topics/none")]
+        r = (k * 5) % len(refused)
+        steps = [call(1, op="CreateTopic", name=T1), call(1, op="CreateTopic", name=T2), call(1, op="CreateTopic", name=TP),
+                 call(1, op="CreateSub", name=S1, topic=T1, ack=10 + 10 * (k % 2)),
+                 call(1, op="CreateSub", name=S2, topic=T1, ack=10),
+                 call(1, op="Publish", topic=T1, msgs=[{"p": "r%d-a" % k}, {"p": "r%d-b" % k}, {"p": "r%d-c" % k}]),
+                 call(2, op="Pull", sub=S1, max=1, ri=True), {"do": "advance", "ms": 2000}]
+        steps += refused[r:] + refused[:r]
+        steps += [call(2, op="GetSub", name=S1), call(2, op="GetSub", name=S2), call(2, op="GetTopic", name=T1),
+                  call(2, op="ListTopicSubs", topic=T1, size=0, token=""), call(2, op="ListTopicSubs", topic=T2, size=0, token=""),
+                  call(2, op="ListSubs", project="projects/p1", size=0, token=""),
+                  call(2, op="Pull", sub=S1, max=10, ri=True), call(2, op="Pull", sub=S2, max=10, ri=True),
+                  call(2, op="Publish", topic=T1, msgs=[{"p": "r%d-d" % k}]),
+                  {"do": "advance", "ms": 9000 + 10000 * (k % 2)}, call(2, op="Pull", sub=S1, max=10, ri=True),
+                  {"do": "advance", "ms": 12000}, call(2, op="Pull", sub=S1, max=10, ri=True), call(2, op="Pull", sub=S2, max=10, ri=True),
+                  {"do": "drain", "c": 9}]
+        s2 = scn("refused-live-%d" % k, steps, seed=seed * 100 + k, cap=(16, 1, 2)[k % 3])
+        s2["meta"]["proj"][TP] = "p2"
+        out.append(s2)
     return out
 
 
@@ -620,7 +662,7 @@ def plan_c10(prop, tier, seed, t0):
                 MaxOps=5, MaxMsgs=1)
     return core_check(prop, tier, seed, t0, over, explore=[("churn", 64, 3000), ("mt:churnrace", 300, 20000), ("mt:cdrace", 300, 20000)],
                       extra_scenarios=lambda quick, sd: inflight_delete_scenarios(sd, quick) + inflight_topic_delete_scenarios(sd, quick)
-                      + empty_batch_scenarios(sd) + ack_deadline_scenarios(sd, quick),
+                      + empty_batch_scenarios(sd) + ack_deadline_scenarios(sd, quick) + refused_next_to_live_scenarios(sd, quick),
                       thorough={"mc": dict(MaxOps=6)}, turns=True)
 
 
